@@ -130,7 +130,8 @@ Lemma len_enumval e K : wf_enumval e = true -> length K < length (pr_enumval e K
 Proof.
   intros Hw. unfold wf_enumval in Hw. bsplit Hw. unfold pr_enumval. rewrite app_length.
   assert (I : is_ident (ev_cname e) = true) by assumption. destruct (ev_cname e); [discriminate|]. cbn [length].
-  match goal with |- _ < _ + length ?X => assert (L : length K <= length X) by (apply sfx_len; repeat sfx_step) end. lia.
+  match goal with |- _ < _ + length ?X => assert (L : length K <= length X) by (apply sfx_len; repeat sfx_step) end.
+  clear - L. lia.
 Qed.
 
 Lemma enumvals_loop : forall vs k fuel, wf_enumvals vs = true -> sfx (pr_enumvals vs (x7d :: k)) whole ->
